@@ -24,14 +24,14 @@ META = {
             "division functions on constants (negative, float, zero divisors excluded) and with non-constant divisors "
             "(FeatureNotSupported). Oracle: the numpy function on the underlying plain arrays: equal shape and values, equal "
             "dtype kind for boolean / index results, first occurrence for argmax/argmin. distinct = (function, arguments, array).",
-    "bounds": {"shapes": len(SHAPES), "rotations": 3, "dtypes": ["i8", "f8"]},
+    "bounds": {"shapes": len(SHAPES), "rotations": 3, "dtypes": ["i8", "f8", "u1", "i1", "f4", "?"]},
     "assumptions": ["results are compared through tonumpy()/asarray; integer vs float width of numeric results is not demanded"],
 }
 
 
 def const_poly(arr, name="q0", variant="canon"):
     arr = numpy.asarray(arr)
-    dt = {"i": "i8", "f": "f8", "b": "?", "u": "u4", "c": "c16"}[arr.dtype.kind]
+    dt = arr.dtype.str.lstrip("<|=") if arr.dtype.kind != "b" else "?"
     return build_checked(spec((name,), arr.shape, [((0,), arr.ravel().tolist())], dt, variant))
 
 
@@ -39,7 +39,17 @@ def filled(shape, rot, kind="i"):
     n = int(numpy.prod(shape)) if shape else 1
     vals = [POOL[(rot + i * (2 if rot == 2 else 1)) % len(POOL)] for i in range(n)]
     a = numpy.array(vals).reshape(shape)
-    return a.astype(float) * (0.5 if rot == 1 else 1.0) if kind == "f" else a
+    if kind == "f":
+        return a.astype(float) * (0.5 if rot == 1 else 1.0)
+    if kind == "u1":
+        return (numpy.abs(a) * 50).astype("u1")          # 0..250: sums and differences leave uint8
+    if kind == "i1":
+        return (a * 25).astype("i1")                     # -25..125
+    if kind == "f4":
+        return (a * 0.25).astype("f4")
+    if kind == "?":
+        return (a % 2).astype(bool)
+    return a
 
 
 def to_numeric(x):
@@ -142,7 +152,7 @@ def cases(tier, seed):
     out = []
     for shape in SHAPES:
         for rot in (0, 1, 2):
-            for kind in ("i", "f"):
+            for kind in ("i", "f") + (("u1", "i1", "f4", "?") if rot == 0 or shape in ((3,), (2, 3)) else ()):
                 out.append({"k": "reductions", "s": list(shape), "rot": rot, "kind": kind})
                 out.append({"k": "elementwise", "s": list(shape), "rot": rot, "kind": kind})
     names = sorted({getattr(k, "__name__", str(k)) for k in list(numpoly.FUNCTION_COLLECTION) + list(numpoly.UFUNC_COLLECTION)
@@ -190,6 +200,7 @@ def run_case(case, R):
                 judge(R, "ediff1d", f" on {a.tolist()}", lambda: numpoly.ediff1d(p), lambda: numpy.ediff1d(a), tags) if a.size > 1 else None
             R.sample({"constants": a.tolist(), "functions": "reductions x every axis x keepdims"})
         else:
+            narrow = kind in ("u1", "i1", "f4", "?")
             b = filled(shape, (rot + 1) % 3, kind)
             q = const_poly(b, "q1")
             for fname in ("absolute", "negative", "positive", "square", "ceil", "floor", "rint", "isfinite"):
@@ -204,6 +215,8 @@ def run_case(case, R):
                 npf = getattr(numpy, fname)
                 for lab, pa, pb, na, nb in (("(a,b)", p, q, a, b), ("(a,2)", p, 2, a, 2), ("(1,a)", 1, p, 1, a), ("(a,a)", p, p, a, a),
                                             ("(a,b[...,:1])", p, q[..., :1] if nd else q, a, b[..., :1] if nd else b)):
+                    if narrow and (isinstance(pa, int) or isinstance(pb, int)) and fname in ("add", "subtract", "multiply", "maximum", "minimum"):
+                        continue   # numpy's weak-scalar promotion keeps the narrow dtype (and wraps); not part of the claim
                     judge(R, fname, f"{lab} a={a.tolist()} b={b.tolist()}", lambda: getattr(numpoly, fname)(pa, pb), lambda: npf(na, nb), tags,
                           strict_kind=fname in BOOL_FUNCS)
                     judge(R, fname, f"[numpy]{lab} a={a.tolist()} b={b.tolist()}", lambda: npf(pa, pb), lambda: npf(na, nb), tags, strict_kind=fname in BOOL_FUNCS)
@@ -216,6 +229,11 @@ def run_case(case, R):
                               tags + ["tolerances"], strict_kind=True)
                         judge(R, fname, f"[numpy]{lab} {kw} a={a.tolist()} b={b.tolist()}", lambda: npf(pa, pb, **kw), lambda: npf(na, nb, **kw),
                               tags + ["tolerances"], strict_kind=True)
+            if narrow:
+                # power and the numeric division functions on narrow dtypes depend on numpy's value-based / weak-scalar
+                # promotion rules (uint8 ** int64 -> int64, float32 / python float -> float32, bool / int): outside the claim
+                R.stat("narrow_dtype_promotion_cases_skipped")
+                return
             e = (numpy.abs(b) % 3).astype(int)
             judge(R, "power", f"({a.tolist()}, {e.tolist()})", lambda: numpoly.power(p, e), lambda: numpy.power(a, e), tags + ["integer_exponent"])
             if kind == "f":
